@@ -115,6 +115,24 @@ theorem eq_asg : ∀ (n : Nat) (a b : Ty), a.w + b.w ≤ n → Ty.WF cfg a → T
     cases a with
     | any => cases b <;> simp at h; exact same rfl
     | unit => cases b <;> simp at h; exact same rfl
+    | callable p r k =>
+      cases b <;> simp only [] at h <;> (first | contradiction | skip)
+      rename_i p' r' k'
+      unfold Ty.WF at wa wb; unfold Ty.NoAlias at na nb; simp only [Ty.w, Ty.wo] at hw
+      simp only [Bool.and_eq_true] at h
+      obtain ⟨⟨h1, h2⟩, h3⟩ := h
+      have part : ∀ (x y : Option Ty), (match x, y with | none, none => true | some a, some b => tyEq a b | _, _ => false) = true →
+          Ty.wo x + Ty.wo y ≤ n → (match x with | none => True | some t' => Ty.WF cfg t') → (match y with | none => True | some t' => Ty.WF cfg t') →
+          (match x with | none => True | some t' => Ty.NoAlias t') → (match y with | none => True | some t' => Ty.NoAlias t') →
+          (x = none ∧ y = none) ∨ ∃ a b, x = some a ∧ y = some b ∧ asg cfg sfh a b = true ∧ asg cfg sfh b a = true := by
+        intro x y hxy hwxy wx wy nx ny
+        cases x <;> cases y <;> simp only [] at hxy <;> (first | contradiction | skip)
+        · left; exact ⟨rfl, rfl⟩
+        · rename_i a b; right; simp only [Ty.wo] at hwxy
+          exact ⟨a, b, rfl, rfl, ih a b (by omega) wx wy nx ny hxy⟩
+      have := callAcc_of_parts cfg sfh p r k p' r' k' (part p p' h1 (by omega) wa.1 wb.1 na.1 nb.1)
+        (part r r' h2 (by omega) wa.2.1 wb.2.1 na.2.1 nb.2.1) (part k k' h3 (by omega) wa.2.2 wb.2.2 na.2.2 nb.2.2)
+      exact ⟨viaR cfg sfh rfl (by rw [recv_callable_eq]; exact this.1), viaR cfg sfh rfl (by rw [recv_callable_eq]; exact this.2)⟩
     | undef => cases b <;> simp at h; exact same rfl
     | dflt => cases b <;> simp at h; exact same rfl
     | scalar => cases b <;> simp at h; exact same rfl
